@@ -722,6 +722,19 @@ def case_split(rng, icase, G, via_stats):
     names = STAT_NAMES_1D if oned else STAT_NAMES_2D
     err = None
     res = st = None
+    if via_stats and rng.random() < 0.3:
+        # the same object was asked for the same band statistics while it held other values, then overwritten in place
+        import xarray as xr
+
+        arr = G["obj"]["efth"] if isinstance(G["obj"], xr.Dataset) else G["obj"]
+        if isinstance(arr.variable._data, np.ndarray):
+            real = np.array(arr.values, copy=True)
+            try:
+                arr.values[...] = np.flip(real, axis=arr.get_axis_num("freq")) * 0.5
+                G["obj"].spec.stats(names, **kw)
+            except Exception:
+                pass
+            arr.values[...] = real
     try:
         if via_stats:
             st = G["obj"].spec.stats(names, **kw).compute()
